@@ -33,15 +33,10 @@ SD = c01.S2
 S3 = ("N", "VROOT", "--", (("N", "S", "--", (("N", "NP-SB", "SB", (("T", "Der", "ART", "NK", "der", "m", 1), ("T", "Mann", "NN", "NK", "Mann", "m", 2),
                                                                   ("T", "Peter", "NE", "NK", "Peter", "m", 3))),
                                             ("T", "lacht", "VVFIN", "HD", "lachen", "m", 4), ("T", ",", "$,", "--", ",", "m", 5),
-                                            ("N", "S", "OC", (("T", "der", "PRELS", "SB", "der", "m", 6),
-                                                              ("N", "VP", "OC", (("T", "gehen", "VVINF", "HD", "gehen", "m", 7),
-                                                                                 ("T", "wollen", "VVPP", "HD", "wollen", "m", 8),
-                                                                                 ("T", "zu", "VVIZU", "HD", "zu", "m", 9))),
-                                                              ("T", "hat", "VAFIN", "HD", "haben", "m", 10),
-                                                              ("T", "geht", "VVFIN", "HD", "gehen", "m", 11))),
-                                            ("N", "AP", "MO", (("T", "sehr", "ADV", "MO", "sehr", "m", 12), ("T", "gut", "ADJD", "HD", "gut", "m", 13),
-                                                               ("T", "alte", "ADJA", "HD", "alt", "m", 14))))),
-                           ("T", ".", "$.", "--", ".", "m", 15)))
+                                            ("N", "VP", "OC", (("T", "der", "PRELS", "SB", "der", "m", 6),
+                                                               ("T", "gehen", "VVINF", "HD", "gehen", "m", 7),
+                                                               ("T", "wollen", "VVPP", "HD", "wollen", "m", 8))))),
+                           ("T", ".", "$.", "--", ".", "m", 9)))
 
 
 def fixtures():
@@ -178,8 +173,12 @@ def _baseline_main():
     print(json.dumps(out))
 
 
-def history(k, p, **kw):
-    """a history of k commands, then probe command p: result equals the fresh-process value"""
+STATEFUL = [2, 3, 4, 5, 6, 7, 13, 8]     # commands whose implementation keeps or could keep state between calls
+
+
+def history(k, p, sub=False, **kw):
+    """a history of k commands, then probe command p: result equals the fresh-process value
+    (sub: history commands are drawn from the STATEFUL sub-alphabet)"""
     base = fresh()
     for b in base[1:]:
         if b[str(p)] != base[0][str(p)]:
@@ -187,6 +186,8 @@ def history(k, p, **kw):
     stubs.install()
     fixtures()
     hs = [kw["h%d" % i] for i in range(1, k + 1)]
+    if sub:
+        hs = [STATEFUL[h] for h in hs]
     for j, h in enumerate(hs):
         try:
             op(h, "h%d" % j)
@@ -287,11 +288,13 @@ def additive(m, n, a, swap, **kw):
 def conds(tier):
     q = tier == "quick"
     cs = []
-    for k in ([1, 2] if q else [1, 2, 3]):
-        cs.append(Cond("history-k%d" % k, "harness.c18:history",
-                       [P("h%d" % i, "int", 0, NOPS) for i in range(1, k + 1)] + [P("p", "int", 0, NOPS)], fixed={"k": k},
-                       shard=["p"] + (["h1"] if k >= 3 else []), timeout=600 if q else 3000, functions=FUNCS,
-                       note="all histories of %d commands from the alphabet of %d, every probe command" % (k, NOPS)))
+    for (k, sub) in ([(1, False), (2, True)] if q else [(1, False), (2, False), (3, True)]):
+        nh = len(STATEFUL) if sub else NOPS
+        cs.append(Cond("history-k%d%s" % (k, "s" if sub else ""), "harness.c18:history",
+                       [P("h%d" % i, "int", 0, nh) for i in range(1, k + 1)] + [P("p", "int", 0, NOPS)], fixed={"k": k, "sub": sub},
+                       shard=["p"] + (["h1"] if k >= 2 and not q else []), timeout=900 if q else 3000, functions=FUNCS,
+                       note="all histories of %d commands from %s, every probe command" % (
+                           k, "the %d stateful commands" % nh if sub else "the alphabet of %d" % NOPS)))
     for (m, n) in ([(2, 2), (2, 3)] if q else [(2, 2), (2, 3), (3, 3), (3, 4)]):
         cs.append(Cond("additive-m%d-n%d" % (m, n), "harness.c18:additive", e1_params(m, n) + [P("a", "int", 0, len(AOPS)), P("swap", "bool")],
                        fixed={"m": m, "n": n}, pre=[e1_wf_expr(m, n)], shard=["a"] + (["swap"] if m * n >= 9 else []),
